@@ -69,6 +69,27 @@ PROPS["C02"] = dict(
     floor=dict(quick=20000, thorough=200000),
 )
 
+PROPS["C20"] = dict(
+    level="exploration",
+    technique="rapidcheck over seeding histories, long sessions with renegotiations and seed pairs, on a library build without system seeders; oracles: documented refusal, independent wiretap sequence numbering, pairwise distinctness, transcript equality for equal seeds",
+    rule=("three case kinds decoded from the tape: (a) reset histories (role, up to 4 resets, entropy of 1..64 bytes injected before reset #k or "
+          "never, hash-set variant); (b) a session of hundreds (quick) / thousands (thorough) of records per direction in a generated protection "
+          "mode with 0..3 renegotiations by generated initiators, every record authenticated by the independent wiretap with sequence numbers "
+          "from 0 per key change, explicit nonces == counter, explicit CBC IVs pairwise distinct; (c) 3..5 connections with pairwise distinct "
+          "seeds (random / one-bit / length-only differences) compared field by field, plus an equal-seed pair compared byte by byte. "
+          "non-trivial = gate histories, sessions with >= 1 key change beyond the first, seed pairs; distinct by their parameters"),
+    assumptions=["quality of the entropy source itself is out of scope", "ESP8266 hardware RNG seeder cannot be compiled here"],
+    targets=[dict(name="c20_random", src="c20_random.cpp", flavour="san", libs=SSL_LIBS, noseed=True),
+             dict(name="c20_sysseed", src="c20_sysseed.cpp", flavour="san", libs=SSL_LIBS, noseed=False)],
+    quick=[("c20_random", "enum", dict(shards=16)),
+           ("c20_random", "rc", dict(cases=960, shards=16)),
+           ("c20_sysseed", "rc", dict(cases=16, shards=2))],
+    thorough=[("c20_random", "enum", dict(shards=16)),
+              ("c20_random", "rc", dict(cases=16000, shards=16)),
+              ("c20_sysseed", "rc", dict(cases=200, shards=4))],
+    floor=dict(quick=300, thorough=3000),
+)
+
 # ---------------------------------------------------------------- manifest text
 HOOK_COMMITS = ["b37444c", "e1637c5"]
 NOT_APPLICABLE = {}
@@ -101,4 +122,13 @@ MANIFEST_TEXT["C02"] = dict(
           "accepted so that 'reject everything' cannot pass."),
     design_ref="DESIGN.md section 4, C02",
     note="single-edit fault model on short sessions; trusts OpenSSL EVP for the crafted records",
+)
+
+MANIFEST_TEXT["C20"] = dict(
+    text=("Generated seeding histories on a build whose system seeders are compiled out (so the refusal path is real and every run is a pure "
+          "function of the tape), long sessions whose every record must authenticate under an independently derived key schedule with sequence "
+          "number i counted from zero after each ChangeCipherSpec, and seed-pair comparisons of hello randoms, session IDs, key exchanges and "
+          "whole transcripts. A second build with system seeders checks that reset then succeeds without injection."),
+    design_ref="DESIGN.md section 4, C20",
+    note="does not assess entropy quality; renegotiation histories are quiesced before the request (see C19 for arbitrary instants)",
 )
